@@ -576,11 +576,61 @@ def main():
          "  refine ⟨?_, ?_, ?_, ?_⟩ <;> simp only [GenMV.classify_y, GenMV.classify_einf_wedge, GenMV.classify_direction_of_direction, "
          "GenMV.classify_rad2, Classify.vdot, Classify.vwedge, Classify.dotv]\n")
 
-    # ---- g3c rotor roots: rotor_between_objects_root (main branches), pos_twiddle_root, general_root (positive branch), positive_root,
-    #      dorst_norm, annihilate_k, square_roots_of_rotor — the chain behind C13.rotor_between_objects_g3c / square_root_of_rotor
     def nodoc(body):
         return [s_ for s_ in body if not (isinstance(s_, ast.Expr) and isinstance(s_.value, ast.Constant))]
 
+    # ---- g3c fast kernels in object form: fast_up, fast_normalInv, fast_homo, fast_down, meet, euc_dist (radicand)
+    def gen_fast():
+        g = tree(G3C)
+        tup = Tr(dict(mv=V('x'), no=V('no'), ninf=V('ninf'))).tr(last_return(find(g, 'fast_up')))
+        f = find(g, 'fast_normalInv')
+        src = [ast.unparse(st) for st in nodoc(f.body)]
+        if src != ['Madjoint = ~mv', 'MadjointM = (Madjoint * mv).value[0]', 'return Madjoint / MadjointM']:
+            raise Refuse(f"fast_normalInv: {src}")
+        f = find(g, 'fast_homo')
+        e = last_return(f)
+        if not (isinstance(e, ast.BinOp) and isinstance(e.op, ast.Mult) and ast.unparse(e.left) == 'mv' and isinstance(e.right, ast.Call)
+                and ast.unparse(e.right.func) == 'fast_normalInv' and len(e.right.args) == 1):
+            raise Refuse("fast_homo is not mv * fast_normalInv(<expr>)")
+        hden = Tr(dict(mv=V('x'), ninf=V('ninf'))).tr(e.right.args[0])
+        tdown = Tr(dict(E0=H('E0', '(1 : ℚ)')), opaque={'fast_homo(mv)': V('h')}).tr(last_return(find(g, 'fast_down')))
+        f = find(g, 'meet')
+        if ast.unparse(last_return(f)) != 'fast_dual(fast_dual(A) ^ fast_dual(B))':
+            raise Refuse("meet is not fast_dual(fast_dual(A) ^ fast_dual(B))")
+        f = find(g, 'fast_dual')
+        if ast.unparse(last_return(f)) != 'layout.MultiVector(dual_gmt_func(I5.value, a.value))':
+            raise Refuse("fast_dual is not dual_gmt_func(I5.value, a.value)")
+        f = find(g, 'euc_dist')
+        body = nodoc(f.body)
+        if ast.unparse(body[0]) != 'dot_result = (conf_mv_a | conf_mv_b)[()]' or not isinstance(body[1], ast.If) \
+                or ast.unparse(body[1].test) != 'dot_result < 0.0' or not isinstance(body[1].body[0], ast.Return):
+            raise Refuse("euc_dist frame")
+        r = body[1].body[0].value
+        if not (isinstance(r, ast.Call) and ast.unparse(r.func) == 'math.sqrt' and len(r.args) == 1):
+            raise Refuse("euc_dist is not math.sqrt(<expr>)")
+        rad = Tr(dict(dot_result=S('d'))).tr(r.args[0])
+        dot = Tr(dict(conf_mv_a=V('X'), conf_mv_b=V('Y'))).tr(body[0].value.value)
+        return (f"def g3c_fast_up (x ninf no : A) : A := {tup.lean}\n"
+                f"def g3c_fast_homo_den (x ninf : A) : A := {hden.lean}\n"
+                f"def g3c_fast_down (h E0 : A) : A := {tdown.lean}\n"
+                f"def g3c_euc_dist_radicand (d : ℚ) : ℚ := {rad.lean}\n"
+                f"def g3c_euc_dist_dot (X Y : A) : A := {dot.lean}\n")
+    emit('g3c_fast', gen_fast,
+         "theorem g3c_fast_eq {x y ep en : A} {q qy b' : ℚ} (r : Conf.Rel x ep en q) (ry : Conf.Rel y ep en qy) (hxy : x * y + y * x = (2 * b') • (1 : A)) (s : ℚ) :\n"
+         "    GenMV.g3c_fast_up x (Conf.einf ep en) (-(Conf.eo ep en)) = Conf.up x ep en q\n"
+         "    ∧ GenMV.g3c_fast_homo_den (s • Conf.up x ep en q) (Conf.einf ep en) = s • (1 : A)\n"
+         "    ∧ GenMV.g3c_fast_down (Conf.up x ep en q) (Conf.E0 ep en) = x\n"
+         "    ∧ (GenMV.g3c_euc_dist_radicand b') • (1 : A) = (-2 : ℚ) • (b' • (1 : A))\n"
+         "    ∧ (-2 : ℚ) • GenMV.g3c_euc_dist_dot (Conf.up x ep en q) (Conf.up y ep en qy) = (x - y) * (x - y) := by\n"
+         "  refine ⟨?_, ?_, ?_, ?_, ?_⟩\n"
+         "  · have h := Conf.fast_up_eq_up r\n    simp only [GenMV.g3c_fast_up]\n    rw [← h]\n    mv_nf\n    mv_fin\n"
+         "  · have h := Conf.homo_scale r s\n    simp only [GenMV.g3c_fast_homo_den]\n    rw [← h]\n    mv_nf\n    mv_fin\n"
+         "  · have h := Conf.down_up r\n    simp only [GenMV.g3c_fast_down, one_smul]\n    exact h\n"
+         "  · simp only [GenMV.g3c_euc_dist_radicand]\n    mv_fin\n"
+         "  · have h := Conf.dist_sq r ry hxy\n    simp only [GenMV.g3c_euc_dist_dot]\n    rw [← h]\n    mv_nf\n    mv_fin\n")
+
+    # ---- g3c rotor roots: rotor_between_objects_root (main branches), pos_twiddle_root, general_root (positive branch), positive_root,
+    #      dorst_norm, annihilate_k, square_roots_of_rotor — the chain behind C13.rotor_between_objects_g3c / square_root_of_rotor
     def gen_roots():
         g = tree(G3C)
         # rotor_between_objects_root
